@@ -14,7 +14,7 @@ import (
 func init() {
 	register(&propDef{
 		id: "C03", level: "proof", run: runC03,
-		explanation: "Structural proof over syntax+types: container structs hold only *XMsg/[]*XMsg with pairwise distinct element types (so Go's type checker pins each arm to its slot); each of the 17 routers is a type switch whose arms are in bijection with the container's fields and are exactly `x.F = &tmp` or `x.F = append(x.F, &tmp)` (optionally after tmp.expandComponents()) with an empty default; File.add routes the common messages and forwards everything else exactly once; File.init allocates and installs the container matching the file type and rejects every other value on all paths; accessors and Encode's switch use the same (file type, container) pairing; the decoder calls File.add only on the error-free path, once per record. Trusted: the argument that these obligations imply the statement (DESIGN.md C03). Also: File.FileId is written only by File.add on the decode path, and the C13 slot rules run here as the premise that the message handed to the router is the one its own local slot defines.",
+		explanation: "Structural proof over syntax+types: container structs hold only *XMsg/[]*XMsg with pairwise distinct element types (so Go's type checker pins each arm to its slot); each of the 17 routers is a type switch whose arms are in bijection with the container's fields and are exactly `x.F = &tmp` or `x.F = append(x.F, &tmp)` (optionally after tmp.expandComponents()) with an empty default; File.add routes the common messages and forwards everything else exactly once; File.init allocates and installs the container matching the file type and rejects every other value on all paths; accessors and Encode's switch use the same (file type, container) pairing; the decoder calls File.add only on the error-free path, once per record. Trusted: the argument that these obligations imply the statement (DESIGN.md C03). Also: File.FileId is written only by File.add on the decode path, and the C13 slot rules run here as the premise that the message handed to the router is the one its own local slot defines. (4-reject-propagates) the NotSupportedError of a rejected file type is returned on every path of every caller of a carrier, and not overwritten by a loop's next call.",
 		trusted:     []string{"Go semantics of type switch, append and assignment", "go/types", "go/ssa dominator tree", "the paper argument of DESIGN.md section C03 that obligations 1-6 imply the routing statement"},
 	})
 }
